@@ -52,6 +52,7 @@ TSetFixed(ev) ==
 
 TOptCall(ev) ==
   /\ Observe(ev) /\ status' = status /\ memo' = EmptyMemo
+  /\ Clause(ev, "opt-raised", ~ev.raised)
   /\ Clause(ev, "opt-effect", OptCallEffect(ev.maxIter, ev.fixFirst, [i \in DOMAIN ev.verts |-> ev.verts[i].pose]))
   /\ Clause(ev, "opt-report", RepMatches(Outcome(Favourable(ev.cls, ev.rep, ev.maxIter), 0, ev.maxIter), ev.rep))
   /\ Clause(ev, "opt-verbose", ev.rep.verboseOk)
